@@ -601,8 +601,8 @@ func genC13(t *rapid.T) c13Case {
 		d := rapid.SampledFrom(dirs).Draw(t, "dir")
 		name := drawName(t) + rapid.SampledFrom([]string{".bin", ".bin", ".dat"}).Draw(t, "suffix")
 		p := filepath.Join(d, name)
-		if seen[p] {
-			continue
+		if seen[p] { // keep the drawn number of files: make the path unique instead of dropping the file
+			p = filepath.Join(d, fmt.Sprintf("f%d_%s", i, name))
 		}
 		seen[p] = true
 		n := nbits
